@@ -18,6 +18,8 @@ def Num.toRat (x : Num) : ℚ := (x.n : ℚ) / 2 ^ x.k
 /-- `a ≤ b` in the model's own comparison (`Num.cmp`, the one `Num.min` and the `!py` operators use). -/
 def Num.le (a b : Num) : Prop := a.cmp b ≠ .gt
 
+instance (a b : Num) : Decidable (a.le b) := by unfold Num.le; infer_instance
+
 theorem two_pow_split (k a : Nat) (h : a ≤ k) : (2 : ℚ) ^ k = 2 ^ (k - a) * 2 ^ a := by
   rw [← pow_add]; congr 1; omega
 
